@@ -418,10 +418,11 @@ class Interp {
       case O_MOVE_DW: real::move_dw(o.at(0), o.at(1)); break;
       case O_ASSIGN_DW: real::assign_dw(o.at(0), o.at(1), o.at(2) != 0); break;
       case O_RECREATE_DW: real::recreate_dw(o.at(0)); break;
-      case O_PUSH_TRACER: real::push_tracer(); break;
+      case O_PUSH_TRACER: real::push_tracer(o.at(0)); break;
       case O_POP_TRACER: real::pop_tracer(); break;
       case O_SWAP_REPORTER: swap_good = real::swap_reporter(o.at(0) != 0); res.swaps++; break;
     }
+    real::drain_stream_tracers();
     if (x.degrade) { res.degraded = true; stop = true; return; }
 
     // --- compare ---
@@ -661,7 +662,7 @@ class Interp {
       case O_MOVE_DW: real::move_dw(o.at(0), o.at(1)); break;
       case O_ASSIGN_DW: real::assign_dw(o.at(0), o.at(1), o.at(2) != 0); break;
       case O_RECREATE_DW: real::recreate_dw(o.at(0)); break;
-      case O_PUSH_TRACER: real::push_tracer(); break;
+      case O_PUSH_TRACER: real::push_tracer(o.at(0)); break;
       case O_POP_TRACER: real::pop_tracer(); break;
       case O_SWAP_REPORTER: real::swap_reporter(o.at(0) != 0); break;
     }
